@@ -18,4 +18,11 @@ MIN_OBLIGATIONS = 30
 
 def build(src, tier):
     w = K.world_for(src, tier)
-    return [(w, [K.t_tree_lemmas(), K.t_dispatch(), K.t_top(), K.t_is_in(), K.t_child_state(), K.t_start_at()])]
+    # charts built from state_method_template: the template handler names the registered parent of ITS chart exactly
+    # when nothing answers, and the two registries are per chart (the rest of the template property is C17)
+    from . import template_targets as TT
+    wt = TT.world_for(src, tier)
+    tts = [TT.t_template(k) for k in TT.KINDS] + [TT.t_register_signal_callback(f) for f in (True, False)] + \
+          [TT.t_register_parent(f) for f in (True, False)]
+    return [(w, [K.t_tree_lemmas(), K.t_dispatch(), K.t_top(), K.t_is_in(), K.t_child_state(), K.t_start_at()]),
+            (wt, tts)]
